@@ -2168,7 +2168,15 @@ func (r *Raft) isMember(id string) bool {
 // isSingleServerCluster returns true if the current configuration only contains
 // this node as a voting member.
 func (r *Raft) isSingleServerCluster() bool {
-	return len(r.configuration.Members) == 1 && r.configuration.IsVoter[r.id]
+	// Members that are not voting members do not count. Nothing depends on
+	// their responses, so the cluster must not wait for them either.
+	voters := 0
+	for _, isVoter := range r.configuration.IsVoter {
+		if isVoter {
+			voters++
+		}
+	}
+	return voters == 1 && r.configuration.IsVoter[r.id]
 }
 
 // pendingConfigurationChange returns true if the current configuration
